@@ -11,7 +11,7 @@ EXPLANATION = (
     "container shell around D's tokens with levels shifted, same maps, same inline content, same env references."
 )
 BOUNDS = {
-    "quick": "D = FREE(3)+newline (newline among the free values => 1-3 lines), no tab/CR/NUL; wrappers: quote, list '- ', '1. ', '12)   '; "
+    "quick": "D = FREE(3)+newline (newline among the free values => 1-3 lines), no tab/CR/NUL; wrappers: quote, list '- ' (FREE(3)), list '12)   ' (FREE(2)); "
              "CTX documents (list, quote+lazy, fence, code, heading, setext, reference definition, html block) with 1 free character; "
              "double wrapping quote(quote), quote(list), list(quote) on FREE(2)",
     "thorough": "FREE(4); all six marker shapes x 1-4 spaces; CTX with 2 free characters; depth-3 wrappings",
@@ -165,8 +165,9 @@ def jobs(tier, seed):
     spec = {n: dict(NOTAB) for n in names}
     k = 3 if tier == "quick" else 4
     wrappers = [["quote"]] + [[f"list:{m}"] for m in (MARKERS_QUICK if tier == "quick" else MARKERS_ALL)]
-    for w in wrappers:
-        _sharded(jobs, {"cfg": CM, "scaffold": free_doc(k, "\n"), "wraps": w}, weight=10, spec=spec)
+    for i, w in enumerate(wrappers):
+        kk = k if (tier == "thorough" or i < 2) else k - 1  # quick: the third marker shape on FREE(2)
+        _sharded(jobs, {"cfg": CM, "scaffold": free_doc(kk, "\n"), "wraps": w}, weight=10, spec=spec)
     doubles = [["quote", "quote"], ["list:- ", "quote"], ["quote", "list:1. "]]
     if tier == "quick":
         doubles = [["list:1. ", "quote"], ["quote", "list:- "]]
